@@ -88,7 +88,11 @@ impl Fam for CharFam {
 
     fn gen_setup(rng: &mut Rng, tier: Tier, _prop: &str) -> CSetup {
         let maxlen = if tier == Tier::Thorough { 32 } else { 12 };
-        let n = if rng.chance(1, 8) { rng.range(0, 2) } else { rng.range(0, maxlen) };
+        let n = match rng.below(40) {
+            0..=4 => rng.range(0, 2),
+            5 => *rng.pick(&[33usize, 64, 130, 257]),
+            _ => rng.range(0, maxlen),
+        };
         // swarm: which UTF-8 length classes may occur
         let only = match rng.below(8) {
             0 => Some(1u64),
